@@ -89,6 +89,9 @@ def flush_units():
     from . import session_units as SU
     out = []
     for u in SU.peering_units((ID,)):
+        if u.name == 'BGPPeering.buildProtocol':
+            out.append(u)          # a new connection owns fresh tables and counters (clause C19-fresh-tables)
+            continue
         if u.name not in ('BGP.connectionMade', 'BGP.connectionLost'):
             continue
         orig = u.build
@@ -166,6 +169,8 @@ def run(tier, seed, only=None):
         u.props = (ID,)
         if u.name in ('BGP.connectionMade', 'BGP.connectionLost'):
             u.clause_props = (lambda name: {ID} if 'adj_rib' in name else set())
+        elif u.name == 'BGPPeering.buildProtocol':
+            u.clause_props = (lambda name: {ID} if 'C19-' in name else set())
         else:
             u.clause_props = (lambda name: {ID})
         run.run_unit(u, prog)
